@@ -1,5 +1,5 @@
 """C18 - attribute and key views of a simfile or chart never disagree (structural clauses)."""
-from ..rules import serial, views, writers, census
+from ..rules import serial, views, writers, census, baseline
 
 EXPLANATION = (
     "Static rule checking of the descriptor machinery: R-CLONE/R-TABLE the three accessors of item_property apply get / []= / del to "
@@ -33,10 +33,14 @@ def c5(ctx):
 def c9(ctx):
     census.mechanism_census(ctx, sorted(census.WATCHED), "attribute and key views")
 
+def c_api(ctx):
+    baseline.surface(ctx, "C18: documented surface", modules=['simfile._private.property', 'simfile.base', 'simfile.sm', 'simfile.ssc'])
+
 CLAUSES = [
     ("C18.1", "one key chooser for get/set/delete", c1),
     ("C18.2-3", "attribute name = lower-cased key; alias table", c2),
     ("C18.4", "SM chart key guards", c4),
     ("C18.5", "equality and serialization read the mapping", c5),
     ("C18.6", "the mapping methods are the inherited OrderedDict ones except where examined (R-CENSUS)", c9),
+    ("C18.api", "public surface: signatures and defaults, constants, enumerations, blank templates, base classes as confirmed (R-API)", c_api),
 ]
